@@ -172,6 +172,7 @@ func cmdCheck(args []string) int {
 		cfg.NoTimers = e.NoTimers
 		cfg.TimerHorizonNs = int64(e.TimerHorizonS) * 1e9
 		cfg.RaceCheck = e.RaceCheck
+		cfg.NoStubs = e.NoStubs
 		cfg.NoStateHash = e.NoStateHash || os.Getenv("VERIF_NO_STATE_HASH") != ""
 		cfg.StopOnViolation = e.Witness
 		eng.cfg = cfg
